@@ -212,6 +212,21 @@ fn exec_c<C: Suite>(scen: &Scenario) -> Exec {
                 line["diag"] = json!({"binding_factors": bfs, "group_commitment": hexs(&gc)});
             }
         }
+        // the binding-factor preimages through the public accessor (vk || H4(msg) || H5(commitment list) || id)
+        if mode == SignMode::Plain && !C::IS_TR {
+            if let Ok(pre) = package.binding_factor_preimages(pk.verifying_key(), &[]) {
+                let mut m = serde_json::Map::new();
+                for (id, b) in &pre {
+                    m.insert(hexs(&id.serialize()), json!(hexs(b)));
+                }
+                if line.get("diag").is_none() {
+                    line["diag"] = json!({});
+                }
+                line["diag"]["binding_factor_preimages"] = Value::Object(m);
+                rep.evaluations += pre.len() as u64;
+                rep.probe("binding_factor_preimages_compared");
+            }
+        }
         rep.trace.push(line.to_string());
         rep.evaluations += 2;
         rep.probe("session_recorded");
